@@ -36,9 +36,9 @@ func runKeyed(stream []byte, di *dialectInfo, key *[32]byte) ([]ref.Frame, int, 
 	var terr, herr error
 	cr := &chunkReader{data: stream, failAt: -1}
 	if di != nil {
-		res, terr, herr = readAll(cr, di.rw, keyOf(key), len(stream)+2)
+		res, terr, herr = readAll(cr, di.rw, keyObj(key), len(stream)+2)
 	} else {
-		res, terr, herr = readAll(cr, nil, keyOf(key), len(stream)+2)
+		res, terr, herr = readAll(cr, nil, keyObj(key), len(stream)+2)
 	}
 	if herr != nil {
 		return nil, 0, herr
@@ -270,7 +270,7 @@ func TestC06Writers(t *testing.T) {
 			rw := &frame.ReadWriter{ByteReadWriter: struct {
 				io.Reader
 				io.Writer
-			}{bytes.NewReader(nil), w}, DialectRW: di.rw, OutVersion: frame.V2, OutSystemID: sys, OutComponentID: comp, OutSignatureLinkID: link, OutKey: keyOf(&key)}
+			}{bytes.NewReader(nil), w}, DialectRW: di.rw, OutVersion: frame.V2, OutSystemID: sys, OutComponentID: comp, OutSignatureLinkID: link, OutKey: keyObj(&key)}
 			if err := rw.Initialize(); err != nil {
 				t.Fatalf("BROKEN: %v", err)
 			}
@@ -280,13 +280,13 @@ func TestC06Writers(t *testing.T) {
 			if err := fw.Initialize(); err != nil {
 				t.Fatalf("BROKEN: %v", err)
 			}
-			sw := &streamwriter.Writer{FrameWriter: fw, Version: streamwriter.V2, SystemID: sys, ComponentID: comp, SignatureLinkID: link, Key: keyOf(&key)}
+			sw := &streamwriter.Writer{FrameWriter: fw, Version: streamwriter.V2, SystemID: sys, ComponentID: comp, SignatureLinkID: link, Key: keyObj(&key)}
 			if err := sw.Initialize(); err != nil {
 				t.Fatalf("streamwriter.Initialize with a key and V2: %v", err)
 			}
 			write = sw.Write
 		} else {
-			fw := &frame.Writer{ByteWriter: w, DialectRW: di.rw, OutVersion: frame.V2, OutSystemID: sys, OutComponentID: comp, OutSignatureLinkID: link, OutKey: keyOf(&key)}
+			fw := &frame.Writer{ByteWriter: w, DialectRW: di.rw, OutVersion: frame.V2, OutSystemID: sys, OutComponentID: comp, OutSignatureLinkID: link, OutKey: keyObj(&key)}
 			if err := fw.Initialize(); err != nil {
 				t.Fatalf("BROKEN: %v", err)
 			}
@@ -367,13 +367,13 @@ func keyedWriter(w io.Writer, di *dialectInfo, useStream bool, key [32]byte, lin
 		if err := fw.Initialize(); err != nil {
 			return nil, err
 		}
-		sw := &streamwriter.Writer{FrameWriter: fw, Version: streamwriter.V2, SystemID: 1, SignatureLinkID: link, Key: keyOf(&key)}
+		sw := &streamwriter.Writer{FrameWriter: fw, Version: streamwriter.V2, SystemID: 1, SignatureLinkID: link, Key: keyObj(&key)}
 		if err := sw.Initialize(); err != nil {
 			return nil, err
 		}
 		return sw.Write, nil
 	}
-	fw := &frame.Writer{ByteWriter: w, DialectRW: di.rw, OutVersion: frame.V2, OutSystemID: 1, OutSignatureLinkID: link, OutKey: keyOf(&key)}
+	fw := &frame.Writer{ByteWriter: w, DialectRW: di.rw, OutVersion: frame.V2, OutSystemID: 1, OutSignatureLinkID: link, OutKey: keyObj(&key)}
 	if err := fw.Initialize(); err != nil {
 		return nil, err
 	}
@@ -383,4 +383,22 @@ func keyedWriter(w io.Writer, di *dialectInfo, useStream bool, key [32]byte, lin
 func heartbeatValue(di *dialectInfo) message.Message {
 	v, _ := di.layouts[0].Decode([]byte{1, 2, 3, 4, 5, 6, 7, 8, 9}, true)
 	return v.(message.Message)
+}
+
+// theKeyObject is one key variable of the application that is filled with the secret in force and handed to
+// whatever needs it (a configuration struct that lives as long as the program): its content changes from case to
+// case, its address never does. Every other case uses it; the rest build a key value of their own (keyOf).
+var theKeyObject frame.V2Key
+var keyObjCalls int
+
+func keyObj(k *[32]byte) *frame.V2Key {
+	if k == nil {
+		return nil
+	}
+	if k[1]&1 == 1 {
+		return keyOf(k)
+	}
+	keyObjCalls++
+	copy(theKeyObject[:], k[:])
+	return &theKeyObject
 }
